@@ -225,6 +225,7 @@ type Config struct {
 	EnvBudget int
 	EnvBudgets map[string]int // substring of env name -> budget (overrides EnvBudget)
 	NoEnv    bool
+	StartTime int64 // virtual clock start (ns); 0 = fixed default (executions of one scenario must start alike)
 }
 
 // Run executes body as thread 0 under a fresh scheduler and returns it after the
@@ -235,6 +236,9 @@ func Run(cfg Config, body func()) *Sched {
 		Now: 1_700_000_000_000_000_000, EnvDefault: cfg.EnvBudget, EnvBudgets: cfg.EnvBudgets, NoEnv: cfg.NoEnv}
 	if s.MaxSteps == 0 {
 		s.MaxSteps = 200000
+	}
+	if cfg.StartTime != 0 {
+		s.Now = cfg.StartTime
 	}
 	if cur != nil {
 		panic("vsched: nested Run")
